@@ -25,6 +25,8 @@ type ProgTrack struct {
 	Timescale uint32
 	T         tableref.Tables // Offsets are filled in by Build
 	Edts      bool
+	// TkhdShort: the track header understates the duration: 1 = half of the media duration, 2 = zero
+	TkhdShort int
 }
 
 // ProgSpec is the specification of a progressive file.
@@ -222,6 +224,12 @@ func buildMoov(spec *ProgSpec) []byte {
 		lib.Mdia.Mdhd.Duration = total
 		movDur := total * 1000 / uint64(tr.Timescale)
 		lib.Tkhd.Duration = movDur
+		switch tr.TkhdShort {
+		case 1:
+			lib.Tkhd.Duration = movDur / 2
+		case 2:
+			lib.Tkhd.Duration = 0
+		}
 		if movDur > maxDur {
 			maxDur = movDur
 		}
